@@ -4,20 +4,31 @@
 (*   tbl   a new table was built: t = its abstract description (as the driver *)
 (*         built it with AddBlacklist/AddRewriter/AddAggregator/AddRoute),    *)
 (*         lvl / lvm = the validation levels as written in the configuration  *)
-(*         text the table was created from ("" = option absent)               *)
+(*         text the table was created from ("" = option absent), ord =        *)
+(*         validate_order as written there ("", "false", "true")              *)
 (*   d     one Dispatch: nm = abstract name, line = abstract line record the  *)
 (*         bytes were built from, o = observed counter deltas / hand-overs /  *)
 (*         aggregator intake, bad = the bad-metrics records that appeared,    *)
 (*         text/key/keynd = hex of the bytes sent, of the key token and of    *)
-(*         the key token without its leading dot                              *)
+(*         the key token without its leading dot, tsn = the timestamp the     *)
+(*         driver wrote as a whole number of seconds (-1: not a number);      *)
+(*         o.ooo = delta of the out_of_order counter                          *)
 (* Verdict: DispatchOps!DeclOK (C01) for one of the verdicts Validate!Verdicts*)
 (* allows (C02), and the bad-metrics clause of C02.                           *)
+(* Order validation (configured per table, C02's configuration dimension):    *)
+(* reg is the order register of validate/ordered.go seen sequentially -- it   *)
+(* is process-wide and keyed by name, so it is never reset between tables.    *)
+(* A point that passed validation on a table with validate_order = true is    *)
+(* newer iff its timestamp exceeds the one registered for its name (a name    *)
+(* never seen: iff positive); an accepted point is registered (the check sits *)
+(* before the blacklist, so whatever happens to the line afterwards).  The    *)
+(* concurrency of the register is C19's matter.                               *)
 EXTENDS DispatchOps, Validate, Json, TLC, TLCExt, IOUtils
 
 TLog == ndJsonDeserialize("trace.ndjson")
 
-VARIABLES l, tbl, lvl, lvm
-tvars == <<l, tbl, lvl, lvm>>
+VARIABLES l, tbl, lvl, lvm, ord, reg
+tvars == <<l, tbl, lvl, lvm, ord, reg>>
 
 ASSUME TLCSet(1, 0)
 
@@ -34,18 +45,25 @@ NormT(j) ==
                     dests |-> [d \in DOMAIN j.routes[k].dests |-> SeqToSet(j.routes[k].dests[d])]]]]
 
 Empty == [black |-> <<>>, rw |-> <<>>, aggs |-> <<>>, routes |-> <<>>]
-TInit == l = 1 /\ tbl = Empty /\ lvl = "" /\ lvm = ""
+NoReg == [x \in {} |-> 0]
+TInit == l = 1 /\ tbl = Empty /\ lvl = "" /\ lvm = "" /\ ord = "" /\ reg = NoReg
 
 TTbl == /\ Is("tbl")
-        /\ tbl' = NormT(Ev.t) /\ lvl' = Ev.lvl /\ lvm' = Ev.lvm
-        /\ Ev.lvl \in LegacyLevels \cup {""} /\ Ev.lvm \in M20Levels \cup {""}
+        /\ tbl' = NormT(Ev.t) /\ lvl' = Ev.lvl /\ lvm' = Ev.lvm /\ ord' = Ev.ord
+        /\ Ev.lvl \in LegacyLevels \cup {""} /\ Ev.lvm \in M20Levels \cup {""} /\ Ev.ord \in OrderSettings
+        /\ UNCHANGED reg
 
-Obs(o) == [in |-> o.in, invalid |-> o.invalid, black |-> o.black, unroutable |-> o.unroutable,
+Obs(o) == [in |-> o.in, invalid |-> o.invalid, ooo |-> o.ooo, black |-> o.black, unroutable |-> o.unroutable,
            rt |-> o.rt, agg |-> SeqToSet(o.agg)]
 
 \* C02: "becomes visible in the bad-metrics report under its name with the rejected text and the reason"
 BadOK(e) ==
-    IF e.o.invalid = 0 THEN e.bad = <<>>                        \* nothing reported for a forwarded line
+    IF e.o.invalid = 0 /\ e.o.ooo = 0 THEN e.bad = <<>>         \* nothing reported for a forwarded line
+    ELSE IF e.o.invalid = 0                                     \* rejected by the order check: "reported as a bad metric"
+         THEN /\ Len(e.bad) = 1
+              /\ e.bad[1].msg = e.text
+              /\ e.bad[1].metric \in {e.key, e.keynd}
+              /\ e.bad[1].err # ""
     ELSE IF e.line.nf = 3
          THEN /\ Len(e.bad) = 1
               /\ e.bad[1].msg = e.text
@@ -56,10 +74,15 @@ BadOK(e) ==
               /\ (Len(e.bad) = 1 => /\ e.bad[1].msg = e.text /\ e.bad[1].metric \in {"", e.key}
                                     /\ ReasonOK(e.line, lvl, lvm, e.bad[1].err))
 
+\* what the order register answers for this point (by its name as graphite sees it: without the leading dot)
+Newers(e) == IF e.keynd \in DOMAIN reg THEN {e.tsn > reg[e.keynd]} ELSE {e.tsn > 0}
+Passed(o) == o.invalid = 0 /\ o.ooo = 0
+
 TDisp == /\ Is("d")
-         /\ DeclOK(tbl, Ev.nm, Verdicts(Ev.line, lvl, lvm), Obs(Ev.o))
+         /\ DeclOKO(tbl, ord, Ev.nm, Verdicts(Ev.line, lvl, lvm), Newers(Ev), Obs(Ev.o))
          /\ BadOK(Ev)
-         /\ UNCHANGED <<tbl, lvl, lvm>>
+         /\ reg' = IF OrdOn(ord) /\ Passed(Ev.o) THEN (Ev.keynd :> Ev.tsn) @@ reg ELSE reg
+         /\ UNCHANGED <<tbl, lvl, lvm, ord>>
 
 TNext == TTbl \/ TDisp
 TSpec == TInit /\ [][TNext]_tvars
